@@ -40,7 +40,8 @@ EXTENDS JsonValue, TLC, Json, IOUtils, FiniteSetsExt
 CONSTANTS MODE,      \* "describe" (export the universe) | "universe" (enumerate) | "file" (cases from the harness)
           MAXJOBS,   \* universe mode: all projects of 0..MAXJOBS jobs, all listing orders, all path specs
           PART, NPARTS,  \* universe mode is split over NPARTS TLC processes (job sets with SumSet(S) % NPARTS = PART)
-          FixD1, FixD2, FixD3, FixD4, FixD5
+          FixD1, FixD2, FixD3, FixD4, FixD5,
+          BoolIntShareKey   \* calibrated rule (C06/C18 territory): TRUE = the search index files True under 1 and False under 0
 
 Flags == [d1 |-> FixD1, d2 |-> FixD2, d3 |-> FixD3, d4 |-> FixD4, d5 |-> FixD5]
 AllFixed == [d1 |-> TRUE, d2 |-> TRUE, d3 |-> TRUE, d4 |-> TRUE, d5 |-> TRUE]
@@ -153,8 +154,9 @@ PathSpecs == <<
      const the key is excluded by exclude_const *)
 KeyPaths(J) == UNION {{e[1] : e \in Flat(J[i].sp, <<>>)} : i \in 1..Len(J)}
 Num(v)      == IF v.t = "bool" THEN (IF v.b THEN 1 ELSE 0) ELSE v.n
-\* as the code: index keys are Python dict keys; True == 1 and False == 0 share a key, floats are kept apart (_float)
-DictEq(v, w) == IF v.t \in {"bool", "int"} /\ w.t \in {"bool", "int"} THEN Num(v) = Num(w) ELSE v = w
+\* as the code: index keys are Python dict keys; floats are kept apart from ints (_float); in the tree as pinned
+\* True == 1 and False == 0 share a key (BoolIntShareKey), a later tree keeps bools apart as well (_bool)
+DictEq(v, w) == IF BoolIntShareKey /\ v.t \in {"bool", "int"} /\ w.t \in {"bool", "int"} THEN Num(v) = Num(w) ELSE v = w
 Index(J) ==
   LET n  == Len(J)
       KP == KeyPaths(J)
